@@ -6,6 +6,50 @@ props = [json.loads(l) for l in open(os.path.join(HERE, "properties.jsonl"))]
 
 # id -> (technique, level text, level note, design ref)
 CHECKS = {
+ "C05": ("proptest change DAGs written as raw git change commits + metamorphic comparison across reference layouts and a second repository",
+         "Exploration: the same generated commit set (issues and patches, ties in timestamps, concurrent conflicting actions, some rejected changes) is evaluated through cob::get under five layouts: one ref per tip, permuted namespaces, extra interior refs, a ref at every change, and a second repository that received the commits in another order; object, tips and entry set must be identical.",
+         "Real git storage on tmpfs; commit timestamps via GIT_COMMITTER_DATE in single-threaded shard processes.",
+         "DESIGN.md C05"),
+ "C06": ("proptest change DAGs with injected rejected changes + metamorphic re-evaluation of the pruned history",
+         "Exploration: issue and patch histories mixing valid changes with forged signatures, undecodable actions and multi-action changes whose later action is rejected, at every DAG position; the evaluated history must be ancestor-closed and free of surely-rejected changes, and re-pointing the refs at its tips must give the identical object, tips and entries. The non-atomic op defect it found is fixed.",
+         "Raw change commits bypass cob::update's apply-before-store check exactly as fetched data does. At most one discussion-thread action and one identifier-producing action per change (debug-only assertions in the thread code, and the CLI's own transaction rule).",
+         "DESIGN.md C06"),
+ "C13": ("proptest boundary-valued message sequences into the real Service, mutated frame byte streams into the real Deserializer, exhaustive pkt-line length prefixes",
+         "Exploration: (messages) well-formed gossip with boundary values from peers in every session state — no panic, only the sender may be disconnected, the service still accepts an honest announcement afterwards; (frames) mutated/boundary/random frame streams in random chunks, decoded gossip dispatched to the service, allocation guard at 1 GiB; (pktline) all 65536 four-hex length prefixes x 3 bodies plus generated headers through the real parser. Four remote-triggerable crashes found and fixed.",
+         "Worker git streams after the request header are not executed; the frames sub-check shares one service per shard.",
+         "DESIGN.md C13"),
+ "C14": ("proptest + exhaustive grids of length prefixes, cut points and damaged inner messages against the real Deserializer<Frame> with a counting allocator",
+         "Exploration: every varint width x boundary lengths x supplied bytes (largest single allocation <= 64 KiB + bytes buffered, measured by the harness's global allocator; 256 MiB trip wire), every single cut position and random multi-cuts of encoded frame sequences (frames out == frames in, in order, buffer empty), and complete frames around truncated/over-long/unknown/invalid inner messages (error, never 'incomplete'). Two defects found and fixed.",
+         "Allocation is judged per decode call as the largest single request; the inbox's own growth is counted, not judged.",
+         "DESIGN.md C14"),
+ "C15": ("proptest constructor-built messages at the limits + structure-aware byte mutants vs round-trip / re-encode oracle",
+         "Exploration: every message type built through the public constructors at and around the size limits encodes within 65535 bytes and decodes to an equal message; for mutated, hand-assembled and random bytes, a successful decode must re-encode to exactly the input (node announcement without trailing user agent excepted). All boundary messages with 1..12 tail bytes dropped are enumerated. Two defects found and fixed.",
+         "MockSigner keys; signatures of really signed announcements must still verify after decoding.",
+         "DESIGN.md C15"),
+ "C18": ("proptest recursive JSON values + exhaustive code points and key triples vs a strict canonical-grammar scanner",
+         "Exploration: values through cob::store::encoding::encode and Doc::encode; a strict scanner checks the output grammar (no insignificant whitespace, integers only, escapes, NFC, keys ascending), the scanned tree equals the NFC-normalised input, floats are rejected, and decode->encode reproduces the bytes. Every code point below U+3000 and 31^3 key triples are enumerated. Two formatter defects found and fixed.",
+         "Objects whose keys collide after NFC are skipped for the value comparison; DEL/C1 controls are counted, not required to be escaped.",
+         "DESIGN.md C18"),
+ "C21": ("proptest values by construction + arbitrary/mutated text vs an independent base58btc reference and round-trip oracle",
+         "Exploration: keys, DIDs, repository ids, aliases and user agents at their limits print in canonical form (checked against an independent base58btc encoder) and reparse equal through every parse route; arbitrary text (every multibase prefix, single-edit mutants, random Unicode) never panics and anything accepted round-trips.",
+         "print(parse(s)) == s is not demanded (the statement does not).",
+         "DESIGN.md C21"),
+ "C24": ("proptest operation sequences per store vs in-memory reference models, compared after every step",
+         "Exploration: routing, seed sync status, refs cache, policy and gossip stores on in-memory sqlite are driven with generated operation sequences over small node/repo/timestamp domains; return values and the full query surface are compared with a model implementing the statement after every operation. One defect found and fixed.",
+         "Timestamp 0 is excluded from the gossip store domain (C13).",
+         "DESIGN.md C24"),
+ "C25": ("proptest call sequences + exhaustive 4-node configurations vs reference models of announcer and fetcher",
+         "Exploration: configurations over an 8-node pool (local node anywhere) and arbitrary call sequences against models of the documented contracts; success exactly when the target is met, the local node never counted or handed out, no node with a result handed out again. Exhaustive over all 4-node configurations in three (quick) / all (thorough) result orders. One defect fixed, one listed as known (its repair changes CLI output recorded in example tests).",
+         "Second results for one node are outside the domain (callers report once per hand-out).",
+         "DESIGN.md C25"),
+ "C28": ("proptest repositories in a real Storage + ref-snapshot oracle around Storage::clean",
+         "Exploration: real repositories with generated delegate sets, identity revisions, remotes with/without sigrefs and odd refs; after clean every removed ref belongs to a namespace that is neither local nor a current delegate, and the repository disappears only when the local node has no signed refs.",
+         "Only removals are judged (the statement forbids removals; a removable namespace that survives is counted).",
+         "DESIGN.md C28"),
+ "C30": ("proptest pairs of small trees in a real git repository + round-trip oracle through encode/parse (whole diff and per file)",
+         "Exploration: git2 diffs (rename detection as the CLI does) between generated trees with awkward lines (trailing blanks, CR, Unicode whitespace, diff-syntax look-alikes) are encoded and parsed back; files, kinds, hunk headers, ranges and lines must be equal. One defect fixed; unchanged renames cannot be decoded (known finding, repair belongs in radicle-surf).",
+         "Binary files, missing EOF newline and Copied deltas are excluded as the statement says; object ids and modes in headers are not compared.",
+         "DESIGN.md C30"),
  "C26": ("exhaustive small strings/lines + proptest Unicode strings through every Cell implementor, width oracle and watchdog-backed termination check",
          "Exploration: strings over an atom alphabet (ASCII, CJK, emoji/ZWJ, combining, zero-width, NBSP, U+2003, U+3000, tab, newline), widths and six delimiters through str/String/Paint/Label/Filled and Line::truncate; no panic, display width <= requested width, and every Line::truncate call returns (worker thread + 20 s watchdog, a progress model of the loop confirms a genuine cycle). Strings of <=3 (quick) / <=5 (thorough) atoms and lines of <=2 / <=3 labels are enumerated exhaustively.",
          "Display width is measured with the crate's own Cell::width on the plain content; a microsecond-scale call that does not return within 60 s is reported as a hang.",
@@ -58,7 +102,7 @@ for p in props:
             "thorough_cmd": f"./check {pid} thorough",
             "evidence_file": f"/verif/evidence/{pid}.json",
             "replay_cmd_template": f"./check {pid} --replay {{path}}",
-            "engine": "vcheck",
+            "engine": "vcheck-cli" if pid == "C30" else "vcheck",
             "level_claimed": {"category": "exploration", "text": text, "design_ref": ref},
             "level_note": note,
             "technique": tech,
@@ -69,7 +113,7 @@ for p in props:
 hooks_commits = [l.strip() for l in open(os.path.join(HERE, "hooks_commits.txt"))] if os.path.exists(os.path.join(HERE, "hooks_commits.txt")) else []
 manifest = {
  "version": 1,
- "setup_cmd": "cd /verif/harness && CARGO_NET_OFFLINE=true cargo build --bins",
+ "setup_cmd": "cd /verif/harness && CARGO_NET_OFFLINE=true cargo build --bin vcheck && CARGO_NET_OFFLINE=true cargo build --bin vcheck-cli --features cli",
  "hooks": {
    "guard": "cargo feature `verif-hooks` on crate radicle-node (off by default)",
    "enable": "the harness depends on radicle-node with features [\"test\", \"verif-hooks\"] (path dependency on /repo/crates/radicle-node), so every ./check build compiles /repo's working tree with the hooks on",
@@ -78,7 +122,8 @@ manifest = {
    "add_only": True,
  },
  "engines": [
-   {"name": "vcheck", "path": "/verif/harness", "serves_properties": sorted(CHECKS.keys()),
+   {"name": "vcheck-cli", "path": "/verif/harness", "serves_properties": ["C30"], "kind_free_text": "same harness crate built with --features cli (links radicle-cli); separate binary so that other checks do not rebuild radicle-cli"},
+   {"name": "vcheck", "path": "/verif/harness", "serves_properties": sorted(k for k in CHECKS.keys() if k != "C30"),
     "kind_free_text": "Rust binary driving proptest 1.11 TestRunner (seeded from VERIF_SEED, no persistence) plus explicit enumeration of small finite sub-spaces; process-sharded over 16 cores; shrunk failures are written as JSON replay files and re-executed without the generator"},
  ],
  "checks": checks,
